@@ -1028,7 +1028,9 @@ def parse_primary_expr(lexer, unary_minus=False):
         result = invoke(lexer, result)
     elif token.type == "decimal":
         result = NodeLiteral(
-            ValueDecimal(float(token.value) * (-1 if unary_minus else 1)),
+            ValueDecimal(
+                0 - float(token.value) if unary_minus else float(token.value)
+            ),
             token.pos,
         )
         result = invoke(lexer, result)
